@@ -68,9 +68,18 @@ func (fv *FnV) evalCall(st *State, call *ast.CallExpr) []Val {
 	case *types.Var:
 		// call of a function value (callback): uninterpreted, assumed pure
 		sig, _ := o.Type().Underlying().(*types.Signature)
+		var vals []Val
 		for _, a := range call.Args {
 			v := fv.eval(st, a)
+			vals = append(vals, v)
 			fv.havocPointee(st, v)
+		}
+		if len(fv.frames) == 1 && !fv.spec {
+			// remembered for call-anchored asserts (arg0, arg1, ...) on the callback
+			if fv.callArgs == nil {
+				fv.callArgs = map[*ast.CallExpr][]Val{}
+			}
+			fv.callArgs[call] = vals
 		}
 		fv.tag("callbacks-pure")
 		if sig == nil {
